@@ -31,4 +31,6 @@ def run(prog, rep, tier):
     q = r_pure.q1(prog)
     apply(rep, "Q1", "parsing keeps no process-level state: a query rejected once cannot influence a later parse (no static-storage variable written in library code)",
           ([i for i in q[0] if i[0].startswith(("Q1ii", "Q1iii"))], [f for f in q[1] if f["key"].startswith(("Q1ii", "Q1iii"))]), 2)
+    import r_api as _ra
+    apply(rep, "B6", "the error slot is output-only: *out_err is assigned, never read", _ra.b6(prog), 3)
     maybe_mutants("C14", rep, tier)
